@@ -530,7 +530,19 @@ func simpleString(t *sg.TypeSpec) bool {
 }
 
 // options lists the deviations that are legal for a node, as (kind, prop) pairs.
-func options(r sg.NodeRef, cfgTrueAbove bool) [][2]string {
+// freeUniqueLeaf: a direct, non-key leaf child of the list without a config of its own that no unique statement of
+// the list names yet.
+func freeUniqueLeaf(n *sg.Node) *sg.Node {
+	for _, k := range n.Kids {
+		if k.Kind != "leaf" || n.IsKey(k.Name) || k.Config != "" || uniqueNodes[k] {
+			continue
+		}
+		return k
+	}
+	return nil
+}
+
+func options(r sg.NodeRef, cfgTrueAbove, cfgTrueParent bool) [][2]string {
 	n := r.Node
 	var o [][2]string
 	if n.Kind == "case" || n.Kind == "uses" {
@@ -572,6 +584,12 @@ func options(r sg.NodeRef, cfgTrueAbove bool) [][2]string {
 	}
 	if n.Kind == "list" && len(n.Uniques) > 0 {
 		o = append(o, [2]string{"delete", "unique"})
+	}
+	if n.Kind == "list" && freeUniqueLeaf(n) != nil {
+		o = append(o, [2]string{"add", "unique"})
+	}
+	if n.Config == "false" && cfgTrueParent && !isKey(r) && n.Kind != "case" && !(r.Parent != nil && (r.Parent.Kind == "choice" || r.Parent.Kind == "case")) {
+		o = append(o, [2]string{"replace", "config"})
 	}
 	if n.Kind == "list" || n.Kind == "leaf-list" {
 		if n.Min == "" {
@@ -651,6 +669,14 @@ func applyEdit(r sg.NodeRef, e DevEdit) (stmt string, remove bool) {
 		s := fmt.Sprintf("unique %q;", n.Uniques[i])
 		n.Uniques = append(n.Uniques[:i:i], n.Uniques[i+1:]...)
 		return s, false
+	case "add:unique":
+		l := freeUniqueLeaf(n)
+		uniqueNodes[l] = true
+		n.Uniques = append(n.Uniques, l.Name)
+		return fmt.Sprintf("unique %q;", l.Name), false
+	case "replace:config":
+		n.Config = "true"
+		return "config true;", false
 	case "add:min-elements", "replace:min-elements":
 		n.Min = "2"
 		if n.Max != "" && n.Max != "unbounded" {
@@ -685,6 +711,18 @@ func genDev(t *rapid.T) DevCase {
 	used := map[int]bool{}
 	for i := 0; i < nd && len(refs) > 0; i++ {
 		ti := g.Pick(len(refs), "target")
+		if g.Chance(1, 5, "uqtarget") {
+			// lists that carry unique statements are rare among the targets; aim at one now and then
+			var uq []int
+			for k, r := range refs {
+				if r.Node.Kind == "list" && len(r.Node.Uniques) > 0 {
+					uq = append(uq, k)
+				}
+			}
+			if len(uq) > 0 {
+				ti = uq[g.Pick(len(uq), "uqpick")]
+			}
+		}
 		if used[ti] {
 			continue
 		}
@@ -699,11 +737,36 @@ func genDev(t *rapid.T) DevCase {
 		if skip {
 			continue
 		}
-		opts := options(refs[ti], configTrueAt(c.Mods[0], refs[ti]))
+		par := refs[ti]
+		par.Path = par.Path[:len(par.Path)-1]
+		opts := options(refs[ti], configTrueAt(c.Mods[0], refs[ti]), configTrueAt(c.Mods[0], par))
 		if len(opts) == 0 {
 			continue
 		}
 		o := opts[g.Pick(len(opts), "opt")]
+		if g.Chance(1, 3, "rareopt") {
+			var rare [][2]string
+			for _, x := range opts {
+				switch x[0] + ":" + x[1] {
+				case "not-supported:", "add:must", "add:units", "add:config":
+				default:
+					rare = append(rare, x)
+				}
+			}
+			if len(rare) > 0 {
+				o = rare[g.Pick(len(rare), "rarepick")]
+			}
+		}
+		if o[0]+":"+o[1] == "add:unique" {
+			l, clash := freeUniqueLeaf(refs[ti].Node), false
+			for u := range used {
+				clash = clash || refs[u].Node == l
+			}
+			if clash {
+				continue
+			}
+			uniqueNodes[l] = true
+		}
 		used[ti] = true
 		c.Devs = append(c.Devs, DevEdit{Target: ti, Kind: o[0], Prop: o[1], Idx: g.Pick(4, "which")})
 	}
@@ -761,6 +824,8 @@ func checkDev(c DevCase) fw.Outcome {
 		return out
 	}
 	edited := sg.Clone(c.Mods)
+	uniqueNodes = map[*sg.Node]bool{}
+	noteUniques(edited[0].Nodes)
 	erefs := sg.ListNodes(edited[0])
 	orefs := sg.ListNodes(c.Mods[0])
 	dev := &sg.Mod{Name: "mdev", Prefix: "mdev", Imports: []sg.Import{{Mod: c.Mods[0].Name, Prefix: c.Mods[0].Prefix}}}
@@ -801,7 +866,7 @@ func checkDev(c DevCase) fw.Outcome {
 var devProp = fw.Register(&fw.Prop[DevCase]{
 	ID: "C14", Name: "deviation",
 	Rule: "generated base modules and a deviating module with 1-3 deviations on generated targets (paths through containers, lists, choices and cases): not-supported, add (units, default, mandatory, must, " +
-		"min/max-elements, config), replace (units, default, mandatory, type, min/max-elements), delete (units, default, must); oracle (metamorphic): base + deviating module compiles to the same schema " +
+		"min/max-elements, config, unique), replace (units, default, mandatory, type, min/max-elements, config), delete (units, default, must, unique); oracle (metamorphic): base + deviating module compiles to the same schema " +
 		"as the base with its source edited accordingly (Deviations() attribute compared separately); non-trivial = a target at depth >= 3 or at least two deviations",
 	Gen: genDev, Check: checkDev,
 })
